@@ -2,6 +2,8 @@
 //@[ imports
 use vstd::prelude::*;
 use vstd::std_specs::cmp::*;
+use crate::vx_ord::*;
+broadcast use crate::vx_str::group_str_eq;
 //@]
 use crate::data::*;
 
@@ -92,16 +94,22 @@ impl Table {
     pub open spec fn action_pos(&self, s: StateIndex, q: Quasiterminal) -> int { s.0 * self.ncols() + qcol(self.terminals@, q)->Some_0 }
     pub open spec fn goto_pos(&self, s: StateIndex, n: Seq<char>) -> int { s.0 * self.nonterminals@.len() + nt_index(names_view(self.nonterminals@), n, 0)->Some_0 }
 
-    // T13: the two `position` searches, outlined verbatim (bodies not verified; contracts assumed)
-    #[verifier::external_body]
-    fn __vx_terminal_position(&self, terminal: &DollarlessTerminalName) -> (r: Option<usize>)
-        ensures (match r { Some(i) => Some(i as int), None => None }) == term_index(self.terminals@, *terminal, 0)
-    { /*@orig T13_terminal_position*/ }
+}
 
-    #[verifier::external_body]
-    fn __vx_nonterminal_position(&self, nonterminal: &str) -> (r: Option<usize>)
-        ensures (match r { Some(i) => Some(i as int), None => None }) == nt_index(names_view(self.nonterminals@), nonterminal@, 0)
-    { /*@orig T13_nonterminal_position*/ }
+/// `position` with the equality closure is the column index
+pub proof fn lemma_position_is_term_index(ts: Seq<DollarlessTerminalName>, p: spec_fn(DollarlessTerminalName) -> bool, t: DollarlessTerminalName, i: int)
+    requires forall|x: DollarlessTerminalName| #[trigger] p(x) == (x == t)
+    ensures position_spec(ts, p, i) == term_index(ts, t, i)
+    decreases ts.len() - i
+{
+    if 0 <= i < ts.len() { lemma_position_is_term_index(ts, p, t, i + 1); }
+}
+pub proof fn lemma_position_is_nt_index(ns: Seq<String>, p: spec_fn(String) -> bool, n: Seq<char>, i: int)
+    requires forall|x: String| #[trigger] p(x) == (x@ == n)
+    ensures position_spec(ns, p, i) == nt_index(names_view(ns), n, i)
+    decreases ns.len() - i
+{
+    if 0 <= i < ns.len() { lemma_position_is_nt_index(ns, p, n, i + 1); }
 }
 
 pub proof fn lemma_cell_in_range(s: int, n: int, c: int, q: int)
@@ -185,10 +193,11 @@ impl Table {
         }
         //@]
         let quasiterminal_index = match quasiterminal {
-            Quasiterminal::Terminal(terminal) => /*@{ T13_terminal_position*//*@- self
+            Quasiterminal::Terminal(terminal) => /*@[*/{ let ghost p = |x: DollarlessTerminalName| x == *terminal;
+                proof { lemma_position_is_term_index(self.terminals@, p, *terminal, 0); } /*@]*//*@{ T18_open*//*@- self
                 .terminals
                 .iter()
-                .position(|t| t == terminal) *//*@|*/self.__vx_terminal_position(terminal)/*@}*/
+                .position( *//*@|*/__vx_position(&self.terminals, /*@}*/|t/*@[*/: &DollarlessTerminalName/*@]*/| /*@[*/-> (o: bool) ensures o == p(*t) { /*@]*/t == terminal/*@[*/ }/*@]*/)/*@[*/ }/*@]*/
                 .expect("Terminal not found in table"),
             Quasiterminal::Eof => self.terminals.len(),
         };
@@ -249,10 +258,14 @@ impl Table {
             assert(0 <= state_index * self.nonterminals@.len()) by (nonlinear_arith) requires state_index >= 0, self.nonterminals@.len() >= 0;
         }
         //@]
-        let nonterminal_index = /*@{ T13_nonterminal_position*//*@- self
+        //@[ proof
+        let ghost p = |x: String| x@ == nonterminal@;
+        proof { lemma_position_is_nt_index(self.nonterminals@, p, nonterminal@, 0); }
+        //@]
+        let nonterminal_index = /*@{ T18_open2*//*@- self
             .nonterminals
             .iter()
-            .position(|t| t == nonterminal) *//*@|*/self.__vx_nonterminal_position(nonterminal)/*@}*/
+            .position( *//*@|*/__vx_position(&self.nonterminals, /*@}*/|t/*@[*/: &String/*@]*/| /*@[*/-> (o: bool) ensures o == p(*t) { /*@]*/t == nonterminal/*@[*/ }/*@]*/)
             .expect("Nonterminal not found in table");
 
         if state_index >= self.state_count() {
